@@ -21,6 +21,8 @@
 (* continued under BOTH spellings (the NaN operand of the pending concatenation is replaced by the   *)
 (* string): a clause is violated on such a run only if it is violated under every spelling, it holds  *)
 (* only if it holds under every spelling; a run that formats two or more NaNs decides nothing.       *)
+(* Such a run is executed a third time with darklua's own spelling "NaN": a violation that           *)
+(* disappears under that spelling is EXPLAINED by the spelling alone (counter expl; finding F-C08-b). *)
 (* Output: one raw line  VERDICT {json}  per expression.                                             *)
 EXTENDS Integers, Sequences, FiniteSets, TLC, Json, IOUtils, LuaSem
 EV == INSTANCE Evaluator
@@ -28,7 +30,7 @@ EV == INSTANCE Evaluator
 Cases == ndJsonDeserialize(IOEnv.CASES)
 Macro == 250
 Fuel  == 20000
-NaNSpell == <<"nan", "-nan">>
+NaNSpell == <<"nan", "-nan", "NaN">>     \* 1, 2: the reference implementations; 3: Rust's f64::to_string (attribution only)
 
 ProgOf(p) == [root |-> p.root, nodes |-> p.nodes, req |-> <<>>]
 
@@ -52,25 +54,24 @@ RunSp(P, m, hit, fuel, sp) ==
   ELSE RunSp(P, Step(P, m), hit, fuel - 1, sp)
 
 \* ---------------------------------------------------------------- jobs of one concretisation
-\* job 1: original, spelling 1;  job 2: original, spelling 2 (only if job 1 formatted a NaN);
-\* job 3: folded, spelling 1 (only if the fold changed the text and the original ran to completion);
-\* job 4: folded, spelling 2 (only if job 3 formatted a NaN)
+\* jobs 1..3: original under spelling 1, 2, 3 (2 and 3 only if job 1 formatted a NaN);
+\* jobs 4..6: folded text under spelling 1, 2, 3 (4 only if the fold changed the text and the original ran to
+\*            completion; 5 and 6 only if job 4 formatted a NaN)
 Rho(c, k) == c.rhos[k]
-JobProg(c, k, j) == ProgOf(EV!Concretise(IF j <= 2 THEN c.a ELSE c.b, c.nx, c.va, Rho(c, k)))
-JobSp(j) == NaNSpell[IF j \in {1, 3} THEN 1 ELSE 2]
+JobProg(c, k, j) == ProgOf(EV!Concretise(IF j <= 3 THEN c.a ELSE c.b, c.nx, c.va, Rho(c, k)))
+JobSp(j) == NaNSpell[((j - 1) % 3) + 1]
 NoRes == [st |-> "notrun", why |-> "", ret |-> <<>>, log |-> <<>>, nlog |-> 0, meta |-> 0, steps |-> 0, hit |-> 0]
 ResOf(m, hit) == [st |-> m.st, why |-> m.why, ret |-> m.ret, log |-> m.log, nlog |-> Len(m.log), meta |-> m.meta, steps |-> m.steps, hit |-> hit]
 \* results under spelling s (1 or 2) of the original (A) and the folded text (B)
-ResA(res, s) == IF s = 1 \/ res[1].hit = 0 THEN res[1] ELSE res[2]
-ResB(res, s) == IF s = 1 \/ res[3].hit = 0 THEN res[3] ELSE res[4]
+ResA(res, s) == IF s = 1 \/ res[1].hit = 0 THEN res[1] ELSE res[s]
+ResB(res, s) == IF s = 1 \/ res[4].hit = 0 THEN res[4] ELSE res[3 + s]
 NeedJob(c, j, res) ==
-  CASE j = 2 -> res[1].hit > 0
-    [] j = 3 -> c.same = 0 /\ (res[1].st = "done" \/ (res[1].hit > 0 /\ res[2].st = "done"))
-    [] j = 4 -> res[3].st # "notrun" /\ res[3].hit > 0
+  CASE j \in {2, 3} -> res[1].hit > 0
+    [] j = 4 -> c.same = 0 /\ (res[1].st = "done" \/ (res[1].hit > 0 /\ (res[2].st = "done" \/ res[3].st = "done")))
+    [] j \in {5, 6} -> res[4].st # "notrun" /\ res[4].hit > 0
     [] OTHER -> FALSE
-NextJob(c, j, res) == IF j < 2 /\ NeedJob(c, 2, res) THEN 2
-                      ELSE IF j < 3 /\ NeedJob(c, 3, res) THEN 3
-                      ELSE IF j < 4 /\ j >= 3 /\ NeedJob(c, 4, res) THEN 4 ELSE 5
+RECURSIVE NextJob(_, _, _)
+NextJob(c, j, res) == IF j >= 6 THEN 7 ELSE IF NeedJob(c, j + 1, res) THEN j + 1 ELSE NextJob(c, j + 1, res)
 
 \* ---------------------------------------------------------------- judging one concretisation
 \* outcome under both spellings: equal outcomes stand, different outcomes decide nothing;
@@ -83,31 +84,34 @@ FoldOutcome(a, b) ==      \* a: result of the original, b: result of the folded 
   ELSE "viol"
 RhoOutcome(c, k, res) ==
   LET rho == Rho(c, k) IN LET base == EV!BaseLog(c.nx, rho) IN
-  LET a1 == ResA(res, 1) IN LET a2 == ResA(res, 2) IN
+  LET a1 == ResA(res, 1) IN LET a2 == ResA(res, 2) IN LET a3 == ResA(res, 3) IN
   LET ha == res[1].hit IN
-  [ v |-> Both(EV!ClauseV(c.ans, a1), EV!ClauseV(c.ans, a2), ha),
-    s |-> Both(EV!ClauseS(c.ans.se, a1, base), EV!ClauseS(c.ans.se, a2, base), ha),
-    m |-> Both(EV!ClauseM(c.ans, a1), EV!ClauseM(c.ans, a2), ha),
-    p |-> IF EV!IsLoud(c.nx, rho) THEN "na" ELSE Both(EV!ClauseS(c.ans.pse, a1, base), EV!ClauseS(c.ans.pse, a2, base), ha),
-    f |-> IF c.same = 1 THEN "na"
-          ELSE LET hb == IF res[3].st = "notrun" THEN 0 ELSE res[3].hit IN
-               Both(FoldOutcome(a1, ResB(res, 1)), FoldOutcome(a2, ResB(res, 2)), IF ha > hb THEN ha ELSE hb) ]
+  LET hb == IF res[4].st = "notrun" THEN 0 ELSE res[4].hit IN
+  \* per clause: <<outcome under the reference spellings, outcome under darklua's spelling>>
+  [ v |-> <<Both(EV!ClauseV(c.ans, a1), EV!ClauseV(c.ans, a2), ha), EV!ClauseV(c.ans, a3)>>,
+    s |-> <<Both(EV!ClauseS(c.ans.se, a1, base), EV!ClauseS(c.ans.se, a2, base), ha), EV!ClauseS(c.ans.se, a3, base)>>,
+    m |-> <<Both(EV!ClauseM(c.ans, a1), EV!ClauseM(c.ans, a2), ha), EV!ClauseM(c.ans, a3)>>,
+    p |-> IF EV!IsLoud(c.nx, rho) THEN <<"na", "na">>
+          ELSE <<Both(EV!ClauseS(c.ans.pse, a1, base), EV!ClauseS(c.ans.pse, a2, base), ha), EV!ClauseS(c.ans.pse, a3, base)>>,
+    f |-> IF c.same = 1 THEN <<"na", "na">>
+          ELSE <<Both(FoldOutcome(a1, ResB(res, 1)), FoldOutcome(a2, ResB(res, 2)), IF ha > hb THEN ha ELSE hb), FoldOutcome(a3, ResB(res, 3))>> ]
 
 \* accumulator: per clause ok / viol counters, index of the first violating concretisation, what was observed there
 Clauses == <<"v", "s", "m", "p", "f">>
 NoObs == [st |-> "", ret |-> <<>>, nlog |-> 0, meta |-> 0, hit |-> 0, bst |-> "", bwhy |-> "", bret |-> <<>>, bnlog |-> 0]
 Zero5 == [v |-> 0, s |-> 0, m |-> 0, p |-> 0, f |-> 0]
-Acc0 == [ok |-> Zero5, viol |-> Zero5, first |-> Zero5, obs |-> [v |-> NoObs, s |-> NoObs, m |-> NoObs, p |-> NoObs, f |-> NoObs],
+Acc0 == [ok |-> Zero5, viol |-> Zero5, expl |-> Zero5, first |-> Zero5, obs |-> [v |-> NoObs, s |-> NoObs, m |-> NoObs, p |-> NoObs, f |-> NoObs],
          nrun |-> 0, ndone |-> 0, nerror |-> 0, nunspec |-> 0, nfuel |-> 0, nnan |-> 0, njobs |-> 0, steps |-> 0, bad |-> 0,
          whys |-> <<>>]
-ObsOf(res) == LET a == res[1] IN LET b == res[3] IN
+ObsOf(res) == LET a == res[1] IN LET b == res[4] IN
               [st |-> a.st, ret |-> a.ret, nlog |-> a.nlog, meta |-> a.meta, hit |-> a.hit, bst |-> b.st, bwhy |-> b.why, bret |-> b.ret, bnlog |-> b.nlog]
 AddWhy(ws, w) == IF Len(ws) >= 3 \/ \E q \in 1..Len(ws) : ws[q] = w THEN ws ELSE Append(ws, w)
 Judge(c, k, res, acc) ==
   LET o == RhoOutcome(c, k, res) IN
   LET a == res[1] IN
-  LET upd(x, A) == IF o[x] = "ok" THEN [A EXCEPT !.ok[x] = @ + 1]
-                   ELSE IF o[x] = "viol" THEN [A EXCEPT !.viol[x] = @ + 1, !.first[x] = IF @ = 0 THEN k ELSE @,
+  LET upd(x, A) == IF o[x][1] = "ok" THEN [A EXCEPT !.ok[x] = @ + 1]
+                   ELSE IF o[x][1] = "viol" THEN [A EXCEPT !.viol[x] = @ + 1, !.first[x] = IF @ = 0 THEN k ELSE @,
+                                                        !.expl[x] = @ + (IF a.hit > 0 /\ o[x][2] = "ok" THEN 1 ELSE 0),
                                                         !.obs[x] = IF A.first[x] = 0 THEN ObsOf(res) ELSE @]
                    ELSE A IN
   LET A1 == upd("f", upd("p", upd("m", upd("s", upd("v", acc))))) IN
@@ -115,8 +119,8 @@ Judge(c, k, res, acc) ==
              !.ndone = @ + (IF a.st = "done" THEN 1 ELSE 0), !.nerror = @ + (IF a.st = "error" THEN 1 ELSE 0),
              !.nunspec = @ + (IF a.st = "unspec" THEN 1 ELSE 0), !.nfuel = @ + (IF a.st = "fuel" THEN 1 ELSE 0),
              !.nnan = @ + (IF a.hit > 0 THEN 1 ELSE 0),
-             !.njobs = @ + Cardinality({q \in 1..4 : res[q].st # "notrun"}),
-             !.steps = @ + res[1].steps + res[2].steps + res[3].steps + res[4].steps,
+             !.njobs = @ + Cardinality({q \in 1..6 : res[q].st # "notrun"}),
+             !.steps = @ + res[1].steps + res[2].steps + res[3].steps + res[4].steps + res[5].steps + res[6].steps,
              !.whys = IF a.st = "unspec" THEN AddWhy(@, a.why) ELSE @]
 
 \* ---------------------------------------------------------------- per-expression verdict
@@ -132,7 +136,7 @@ Line(c, acc, wf) ==
   [id |-> c.id, wf |-> IF wf THEN 1 ELSE 0,
    v |-> Outcome(c, acc, "v"), s |-> Outcome(c, acc, "s"), m |-> Outcome(c, acc, "m"), p |-> Outcome(c, acc, "p"), f |-> Outcome(c, acc, "f"),
    sound |-> IF acc.viol["v"] = 0 /\ acc.viol["s"] = 0 /\ acc.viol["m"] = 0 THEN 1 ELSE 0,
-   ok |-> acc.ok, viol |-> acc.viol, first |-> acc.first,
+   ok |-> acc.ok, viol |-> acc.viol, expl |-> acc.expl, first |-> acc.first,
    rho |-> LET fr(x) == IF acc.first[x] = 0 THEN <<0, 0, 0>> ELSE c.rhos[acc.first[x]] IN
            [v |-> fr("v"), s |-> fr("s"), m |-> fr("m"), p |-> fr("p"), f |-> fr("f")],
    obs |-> acc.obs,
@@ -142,7 +146,7 @@ Line(c, acc, wf) ==
 \* ---------------------------------------------------------------- the behaviour of one expression
 VARIABLES i, k, j, m, hit, res, acc, ph
 vars == <<i, k, j, m, hit, res, acc, ph>>
-Res0 == <<NoRes, NoRes, NoRes, NoRes>>
+Res0 == <<NoRes, NoRes, NoRes, NoRes, NoRes, NoRes>>
 
 TInit == /\ i \in 1..Len(Cases)
          /\ k = 1 /\ j = 1 /\ hit = 0 /\ res = Res0 /\ acc = Acc0
@@ -157,7 +161,7 @@ Advance ==
      IF m1.st = "run" THEN m' = m1 /\ hit' = r[2] /\ UNCHANGED <<i, k, j, res, acc, ph>>
      ELSE LET res1 == [res EXCEPT ![j] = ResOf(m1, r[2])] IN
           LET nj == NextJob(c, j, res1) IN
-          IF nj <= 4
+          IF nj <= 6
           THEN /\ j' = nj /\ res' = res1 /\ hit' = 0 /\ m' = Init(JobProg(c, k, nj), DefaultEnv)
                /\ UNCHANGED <<i, k, acc, ph>>
           ELSE /\ acc' = Judge(c, k, res1, acc) /\ res' = Res0 /\ hit' = 0 /\ j' = 1
